@@ -228,7 +228,11 @@ func runPlan(p *plan, workDir string) (out outcome) {
 	}
 	fdBase, _ := udpsvc.FDs()
 
-	w, err := udpsvc.NewWorld(scn, targetBase, p.NSock)
+	n4 := p.NSock
+	if p.V6 {
+		n4--
+	}
+	w, err := udpsvc.NewWorld(scn, targetBase, n4, p.V6)
 	if err != nil {
 		out.setupErr = err
 		return
@@ -466,8 +470,10 @@ func (x *exec) judge(out *outcome, fail func(sig, format string, args ...any)) {
 		session uint16
 		sock    int
 	}
-	relaySock := map[skey]netip.AddrPort{} // relay-side source of each client-side session
-	owner := map[netip.AddrPort]skey{}
+	// relay-side socket of each client-side session, identified by its port (the socket is a dual-stack
+	// wildcard socket: the same socket shows as 127.0.0.1:p at IPv4 targets and [::1]:p at the IPv6 one)
+	relaySock := map[skey]uint16{}
+	owner := map[uint16]skey{}
 	socksUsed := map[uint16]map[int]bool{} // session -> target sockets reached
 	nameUsed := false
 	for _, a := range w.Arrivals() {
@@ -507,10 +513,7 @@ func (x *exec) judge(out *outcome, fail func(sig, format string, args ...any)) {
 		if a.Sock >= 0 {
 			if d.Sock != a.Sock {
 				sig := "misdelivered"
-				if d.Name != "" && x.nameSessionsThroughDirect() >= 2 {
-					sig = "shared-direct-packer-race"
-					out.detector = "misdelivery"
-				}
+				out.detector = "misdelivery"
 				fail(sig, "datagram of session %d seq %d addressed to dest %d (%s -> socket %d %s) arrived at socket %d %s (from %s)",
 					t.Session, t.Seq, t.Target, w.DestAddr(int(t.Target)), d.Sock, w.SockAddr(d.Sock), a.Sock, w.SockAddr(a.Sock), a.From)
 				continue
@@ -531,14 +534,14 @@ func (x *exec) judge(out *outcome, fail func(sig, format string, args ...any)) {
 		if !ss {
 			k.sock, _ = c.SentOn(t.Seq)
 		}
-		if prev, ok := relaySock[k]; ok && prev != a.From {
-			fail("session-split", "datagrams of session %d (client socket %d) left the relay from %s and from %s", k.session, k.sock, prev, a.From)
+		if prev, ok := relaySock[k]; ok && prev != a.From.Port() {
+			fail("session-split", "datagrams of session %d (client socket %d) left the relay from port %d and from %s", k.session, k.sock, prev, a.From)
 		}
-		relaySock[k] = a.From
-		if o, ok := owner[a.From]; ok && o != k {
+		relaySock[k] = a.From.Port()
+		if o, ok := owner[a.From.Port()]; ok && o != k {
 			fail("relay-socket-shared", "relay socket %s carried session %d/%d and session %d/%d", a.From, o.session, o.sock, k.session, k.sock)
 		}
-		owner[a.From] = k
+		owner[a.From.Port()] = k
 	}
 
 	// --- replies at client sockets ---
@@ -626,6 +629,9 @@ func (x *exec) finishEvidence(out *outcome) {
 		fmt.Sprintf("sessions:%d", len(p.Sessions)))
 	if p.ServerEIH {
 		out.labels = append(out.labels, "server-eih")
+	}
+	if p.V6 {
+		out.labels = append(out.labels, "ipv6-target")
 	}
 	if p.ClientEIH {
 		out.labels = append(out.labels, "client-eih")
